@@ -780,6 +780,9 @@ def rule_ply_counter(ctx):
 
 
 RULES = [("exits", rule_exits), ("ply-counter", rule_ply_counter), ("root-result", rule_root_result), ("permutation", rule_permutation), ("noninterference", rule_noninterference), ("windows", rule_windows), ("cut", rule_cut), ("terminal", rule_terminal)]
+# the two immediate draws of the reference game read the half-move clock and the list of earlier positions: what they read is
+# what the rules of chess say (C03: clock table, accessors, the record of earlier positions)
+RULES += engine.premise_rules("c03", ["clock", "accessors", "history-record"])
 
 
 def run(tier):
